@@ -206,7 +206,8 @@ PANICKY_LIB = {
     'std::time::Instant::duration_since',
     'std::string::String::with_capacity', 'std::collections::VecDeque::with_capacity',
     'std::collections::HashMap::with_capacity',
-    'std::str::from_utf8_unchecked',
+    'std::str::from_utf8_unchecked', 'std::string::String::truncate', 'std::string::String::split_off', 'std::string::String::insert',
+    'std::string::String::remove', 'std::string::String::drain', 'std::string::String::replace_range',
     'bytes::Buf::advance',
 }
 
